@@ -13,6 +13,7 @@ import EinoV.Spec.Superstep
 import EinoV.Gen.FactsC01
 import EinoV.Expected.C01
 import EinoV.Proofs.TransPregel
+import EinoV.Proofs.TransMgrInit
 
 namespace EinoV.C01
 open EinoV.Engine EinoV.Gen
@@ -281,5 +282,43 @@ theorem translated_get_not_ready_iff_empty (ops : ValOps V) (es : V) (ch : prege
     cases ops.merge (a.snd :: b.snd :: List.map (fun x => x.snd) rest) <;> simp
 
 end Translated
+
+/-! ### The translated channel manager (compose/graph_manager.go → Gen/TransMgr.lean), any-predecessor mode
+
+  The refinement theorems of Proofs/TransMgr.lean (stated in full in Props/C02.lean, for both kinds of
+  channel) specialised to `r.dag = false`: every channel is a `pregelChannel`. -/
+section TranslatedManager
+open EinoV.GoSem EinoV.TransMgr EinoV.GoWorkList EinoV.Gen.TransC02 EinoV.Gen.TransC01 EinoV.Gen.TransMgr
+variable {V : Type} [Inhabited V]
+
+theorem translated_manager_source_is_current : FactsC01.channelManagerTranslated = true := by decide
+
+/-- `channelManager.updateAndGet` in any-predecessor mode is the channel part of the model's `calcNext`:
+    the values sent are stored under their (declared) senders, dependencies are ignored, and every
+    channel that was sent something hands out its value(s) and is emptied -/
+theorem translated_updateAndGet_refines (ops : ValOps V) (es : V) (mext : MgrExt V) (r : Runner V)
+    (c : channelManager V) (values : GoMap (GoMap V)) (deps : GoMap (List String)) (hd : r.dag = false)
+    (hrel : Rel r c) (hok : ChansOK false c.channels) (hE : NoHandlers mext)
+    (hpv : ∀ w ∈ values, c.channels.has w.1 = true) (hmaps : ∀ w ∈ values, TransDag.KeysNodup w.2)
+    (hpd : ∀ d ∈ deps, c.channels.has d.1 = true) :
+    let g := getReady (TransDag.opsFor ops es c.isStream) false
+      (updateDeps r (updateValues r (toChans c.channels) values) deps)
+    ∃ res, channelManager_updateAndGet (TransDag.extOf ops es) mext c values deps = .ret res ∧
+      (g.2.2 = false → toChans res.1.channels = g.1 ∧ res.2.1 = g.2.1 ∧ res.2.2 = none ∧
+        Frame c res.1 ∧ ChansOK false res.1.channels) ∧
+      (g.2.2 = true → res.2.2.isSome = true ∧ res.2.1 = []) := by
+  simpa only [hd] using updateAndGet_refines ops es mext r c values deps hrel (hd ▸ hok) hE hpv hmaps hpd
+
+/-- `channelManager.reportBranch` in any-predecessor mode: skips are not propagated — no channel changes,
+    the error is nil, for every fuel; so does the model's `reportBranch` -/
+theorem translated_reportBranch_is_noop (ext : Ext V) (mext : MgrExt V) (r : Runner V) (c : channelManager V)
+    (fuel : Nat) (from_ : Key) (sk : List Key) (hd : r.dag = false) (hrel : Rel r c)
+    (hok : ChansOK false c.channels) (hcl : SuccClosed c) (hsk : ∀ s ∈ sk, c.channels.has s = true) :
+    reportBranch r (toChans c.channels) from_ sk = .ok (toChans c.channels) ∧
+    ∃ c', channelManager_reportBranch ext mext fuel c from_ sk = .ret (c', none) ∧
+      toChans c'.channels = toChans c.channels ∧ Frame c c' ∧ ChansOK false c'.channels := by
+  simpa only [hd] using reportBranch_pregel ext mext r c fuel from_ sk hd hrel (hd ▸ hok) hcl hsk
+
+end TranslatedManager
 
 end EinoV.C01
